@@ -40,11 +40,6 @@ theorem separated_assign (sc : Scalar) (o : P) (l r : Expr) (hl : SP (piecesC sc
   simp only [firstP, pp, Option.some.injEq] at hb; subst hb
   exact sepTok_last_closer hx' (c := ';') (cs := []) rfl rfl
 
-/-- left-hand sides the generators emit: a symbol or an array access -/
-def isLvalue : Expr → Bool
-  | .sym .. | .idx .. => true
-  | _ => false
-
 theorem validIdent_not_for {n : String} (h : validIdent n = true) : n ≠ "for" := by
   intro hn; subst hn; exact absurd h (by decide)
 
